@@ -92,11 +92,14 @@ pub fn guarded<F: FnOnce() -> ImplOut>(f: F) -> ImplOut {
     crate::quiet(AssertUnwindSafe(f)).unwrap_or(ImplOut::Panic)
 }
 
-/// The reader is handed over by value, by `&mut` or in a `Box` (the forwarding `Skip` impls), rotating with the input:
-/// the answer may not depend on the carrier, so every MP4 check exercises all three.
+/// The reader is handed over by value, by `&mut` or in a `Box` (the forwarding `Skip` impls), or the asynchronous
+/// entry point is driven over a native `AsyncSkip` reader that suspends every operation once - rotating with the
+/// input: the answer may not depend on the carrier, so every MP4 check exercises all of them.
 pub fn run_mp4(s: &Sparse, cfg: &Cfg, kind: Kind) -> ImplOut {
-    let carrier = (s.len ^ (s.len >> 7) ^ cfg.max) % 3;
+    let carrier = (s.len ^ (s.len >> 7) ^ cfg.max) % 4;
     guarded(|| match (kind, carrier) {
+        (Kind::Seekable, 3) => crate::c12::run_async_every_op_suspended(s, cfg, false),
+        (Kind::Strict, 3) => crate::c12::run_async_every_op_suspended(s, cfg, true),
         (Kind::Seekable, 0) => canon(mp4san::sanitize_with_config(SeekSkipAdapter(SeekReader::new(s)), cfg.build())),
         (Kind::Seekable, 1) => {
             let mut r = SeekSkipAdapter(SeekReader::new(s));
